@@ -23,19 +23,30 @@ Proved here, for all trees, all operation sequences, all callback behaviours and
  * `plans_unused_*`: with plans compiled in but no plan ever created, `deepUpdatePlans` is inert (no
    callback, no request, no record, nothing but control registers changes); with plans compiled out the
    status plumbing (`orHead/orSub`) is the identity.
+ * `plans_unused_equiv_plans_off*` (end of the file): the full "plans compiled in but never used ≡ plans
+   compiled out" for WHOLE operation sequences — for every shape, configuration, generator stream, every
+   operation list without `succeed/fail/plan(…)` calls and every decision stream whose callbacks call none of
+   `succeed/fail/plan().append…/plan().clear`, the two builds go through equal instances (tree, trace with
+   nothing erased, request queue, history, structure report, every control register; only the switch differs).
+   The invariant "no plan exists, no task-status bit is set, no callback to come touches plans"
+   (`World.PI`, Proofs/PlansOff.lean) is threaded through every traversal and every operation; switching the
+   feature off commutes with each of them (Proofs/PlansOffTrav.lean, Proofs/PlansOffMach.lean).
  * `task_capacity_only_at_full_edge`: `TASK_CAPACITY` is read by `append` only and matters only when the
    pool is full.
 Not modelled (hence by the engine only): the structure-report switch (the report is a pure observer in
 the model: `Mach.updateActivity` writes two fields nothing reads), serialization (save/load exist or do
 not), utility theory (strategies exist or do not), the payload *type*, the header flavour.
-Not proved: the full "plans on but unused ≡ plans off" for whole operation sequences (it needs the
-invariant "no callback touches plans or task status" threaded through every traversal; the inertness of
-`deepUpdatePlans` is the non-trivial half).
+Partial (see the comment above `plans_unused_equiv_plans_off`): the equation between the two builds includes the
+model's contract-violation flag `err` only under the hypothesis that the run WITH plans met no violation;
+unconditionally everything but `err` agrees (`…_modulo_err`, `…_observables`).  `plans_unused_err_flag_differs`
+is the closed witness that `err` itself can differ: `react()` on a never-entered manual instance — outside the
+contract of the real code (`R_::react` asserts `isActive()` in both builds), i.e. a gap of the model's flag.
 -/
 import Hfsm.Proofs.RecfgMach
 import Hfsm.Proofs.Limit
 import Hfsm.Proofs.PlansUnused
 import Hfsm.Proofs.DemoMach
+import Hfsm.Proofs.PlansOffMach
 
 set_option linter.unusedVariables false
 set_option linter.unusedSectionVars false
@@ -140,6 +151,154 @@ theorem task_capacity_only_at_full_edge (w : World U) (r : Nat) (t : Task) (c : 
 
 example : Demo.mach.w.taskCount < Demo.mach.w.cfg.taskCap ∧ Demo.mach.w.taskCount < 7 := by decide +kernel
 
+
+/-! ## plans compiled in but never used ≡ plans compiled out, for whole operation sequences
+
+Full statement (property text, instance "plans"): for every shape, configuration, generator stream, every
+operation list without `succeed / fail / plan(…).append… / plan(…).clear` (`Api.Op.plansFree`) and every
+decision stream none of whose callbacks calls `succeed / fail / plan().append… / plan().clear`
+(`Decision.plansFree`), the program built with `HFSM2_ENABLE_PLANS` and the program built without go through
+the same instances: same tree, same trace (callbacks with the same observations and logger records, in the
+same order — no record has to be erased: with no plan `deepUpdatePlans` never reaches `updatePlan`, so
+neither `planSucceeded / planFailed` nor a `planStatus / taskStatus` record is produced), same request queue,
+same history (`transitionTargets`, `previousTransitions`), same structure report, same control registers, and
+on the plans side `planExists = tasksSuccesses = tasksFailures = 0` and clear status arrays throughout.
+
+ * `plans_unused_equiv_plans_off` / `_run`: exactly that, as an equation between instances (`Mach.plansOff` flips
+   the configuration switch and nothing else), under the hypothesis that the run WITH plans records no contract
+   violation of the model (`err = none`).
+ * `plans_unused_equiv_plans_off_modulo_err` / `_run_modulo_err` / `_observables`: without that hypothesis
+   everything but the model's `err` flag agrees.
+ * The hypothesis cannot be dropped for `err` itself (`plans_unused_err_flag_differs`, a closed witness): `react()`
+   on a manual instance that was never entered, whose root is orthogonal, where a leaf consumes the event in
+   `postReact` before an inactive composite sibling is reached.  The build without plans meets no `fail'` of
+   the model; the build with plans runs `deepUpdatePlans`, which does not stop at a consumed event and is sent
+   through the inactive composite (`HFSM2_ASSERT(active < WIDTH)` in `C_::deepUpdatePlans`).  This is outside
+   the documented contract of the real code (`R_::react` asserts `isActive()` first, in both builds), so it is
+   a gap of the model's `err` flag (it does not flag `update()/react()` on an inactive instance), not a
+   difference in observable behaviour.
+-/
+
+/-- **Plans compiled in but never used ≡ plans compiled out** (any instance whose plans are idle and whose status
+arrays are clear, e.g. a freshly constructed one): every operation sequence that does not touch plans takes
+the two builds through the same instances. -/
+theorem plans_unused_equiv_plans_off_run (m : Mach U) (ops : List Api.Op) (hI : m.w.PI) (hs : m.StatusClear)
+    (hops : ∀ o ∈ ops, o.plansFree = true) (herr : (Api.run m ops).w.err = none) :
+    Api.run (Mach.plansOff m) ops = Mach.plansOff (Api.run m ops) := by
+  have hc : (Api.run m ops).w.cfg = m.w.cfg := (safeRel.run ops m).1
+  rw [← Mach.po_eq_plansOff hs, Api.run_po false none m.w.cfg.regionCount ops m rfl hI hops (Or.inl rfl) (fun _ => herr),
+    ← Mach.po_eq_plansOff (Api.run_statusClear ops m hI hs hops), hc]
+
+/-- … and whatever the model's contract-violation flag says, everything else agrees. -/
+theorem plans_unused_equiv_plans_off_run_modulo_err (m : Mach U) (ops : List Api.Op) (hI : m.w.PI)
+    (hs : m.StatusClear) (hops : ∀ o ∈ ops, o.plansFree = true) :
+    Mach.eraseErr (Api.run (Mach.plansOff m) ops) = Mach.eraseErr (Mach.plansOff (Api.run m ops)) := by
+  have hI' : (Mach.plansOff m).w.PI := ⟨hI.pe, hI.su, hI.fa, hI.ds⟩
+  have hs' : (Mach.plansOff m).StatusClear := ⟨hs.head, hs.sub⟩
+  have e1 := Api.run_po false (some "") m.w.cfg.regionCount ops m rfl hI hops (Or.inl rfl) (fun h => nomatch h)
+  have e2 := Api.run_po false (some "") m.w.cfg.regionCount ops (Mach.plansOff m) rfl hI' hops (Or.inl rfl)
+    (fun h => nomatch h)
+  have e3 : (Mach.plansOff m).po false (some "") (statusZero m.w.cfg.regionCount) (statusZero m.w.cfg.regionCount) =
+      m.po false (some "") (statusZero m.w.cfg.regionCount) (statusZero m.w.cfg.regionCount) := rfl
+  rw [e3, e1] at e2
+  have hc : (Api.run m ops).w.cfg = m.w.cfg := (safeRel.run ops m).1
+  have hc' : (Api.run (Mach.plansOff m) ops).w.cfg = (Mach.plansOff m).w.cfg := (safeRel.run ops (Mach.plansOff m)).1
+  exact Mach.eraseErr_of_po_eq "" m.w.cfg.regionCount e2.symm (by rw [hc']; rfl) (by rw [hc']; rfl) (by rw [hc])
+    (Api.run_statusClear ops _ hI' hs' hops) (Api.run_statusClear ops m hI hs hops)
+
+/-- **The full statement, from construction on**: the program compiled without plans behaves as the program
+compiled with plans that never uses them — same tree, trace, queue, history, report, registers. -/
+theorem plans_unused_equiv_plans_off (shape : Shape) (cfg : Config) (ds : List (Decision U)) (rng : List U)
+    (ops : List Api.Op) (hops : ∀ o ∈ ops, o.plansFree = true) (hds : ∀ d ∈ ds, Decision.plansFree d = true)
+    (herr : (Api.run (Api.boot shape { cfg with plans := true } ds rng) ops).w.err = none) :
+    Api.run (Api.boot shape { cfg with plans := false } ds rng) ops =
+      Mach.plansOff (Api.run (Api.boot shape { cfg with plans := true } ds rng) ops) := by
+  have hb := Api.boot_po false shape { cfg with plans := true } ds rng hds
+  have hsc := Api.boot_statusClear shape { cfg with plans := true } ds rng hds
+  have hrc := Api.boot_regionCount shape { cfg with plans := true } ds rng
+  rw [← hrc, Mach.po_eq_plansOff hsc] at hb
+  rw [show ({ cfg with plans := false } : Config) = { ({ cfg with plans := true } : Config) with plans := false } from rfl,
+    hb]
+  exact plans_unused_equiv_plans_off_run _ ops (Api.boot_PI shape _ ds rng hds) hsc hops herr
+
+theorem plans_unused_equiv_plans_off_modulo_err (shape : Shape) (cfg : Config) (ds : List (Decision U))
+    (rng : List U) (ops : List Api.Op) (hops : ∀ o ∈ ops, o.plansFree = true)
+    (hds : ∀ d ∈ ds, Decision.plansFree d = true) :
+    Mach.eraseErr (Api.run (Api.boot shape { cfg with plans := false } ds rng) ops) =
+      Mach.eraseErr (Mach.plansOff (Api.run (Api.boot shape { cfg with plans := true } ds rng) ops)) := by
+  have hb := Api.boot_po false shape { cfg with plans := true } ds rng hds
+  have hsc := Api.boot_statusClear shape { cfg with plans := true } ds rng hds
+  have hrc := Api.boot_regionCount shape { cfg with plans := true } ds rng
+  rw [← hrc, Mach.po_eq_plansOff hsc] at hb
+  rw [show ({ cfg with plans := false } : Config) = { ({ cfg with plans := true } : Config) with plans := false } from rfl,
+    hb]
+  exact plans_unused_equiv_plans_off_run_modulo_err _ ops (Api.boot_PI shape _ ds rng hds) hsc hops
+
+/-- Spelled out (no hypothesis on `err`): the two builds agree on the tree, the trace, the request queue, the
+history, the structure report and the streams consumed; and on both sides no plan exists, no task-status bit
+is set and the status arrays are clear. -/
+theorem plans_unused_equiv_plans_off_observables (shape : Shape) (cfg : Config) (ds : List (Decision U))
+    (rng : List U) (ops : List Api.Op) (hops : ∀ o ∈ ops, o.plansFree = true)
+    (hds : ∀ d ∈ ds, Decision.plansFree d = true) :
+    let off := Api.run (Api.boot shape { cfg with plans := false } ds rng) ops
+    let on := Api.run (Api.boot shape { cfg with plans := true } ds rng) ops
+    off.root = on.root ∧ off.w.trace = on.w.trace ∧ off.w.requests = on.w.requests ∧
+    off.w.targets = on.w.targets ∧ off.w.previous = on.w.previous ∧
+    off.structActive = on.structActive ∧ off.activity = on.activity ∧
+    off.w.ds = on.w.ds ∧ off.w.rng = on.w.rng ∧ off.w.plans = on.w.plans ∧
+    off.w.headStatus = on.w.headStatus ∧ off.w.subStatus = on.w.subStatus ∧
+    on.w.planExists = 0 ∧ on.w.succ = 0 ∧ on.w.fail = 0 ∧ off.w.planExists = 0 ∧ off.w.succ = 0 ∧ off.w.fail = 0 ∧
+    (on.w.err = none → off.w.err = none) := by
+  intro off on
+  have h := plans_unused_equiv_plans_off_modulo_err shape cfg ds rng ops hops hds
+  have key : ∀ {α : Type} (f : Mach U → α), (∀ m, f (Mach.eraseErr m) = f m) → (∀ m, f (Mach.plansOff m) = f m) →
+      f off = f on := fun f h1 h2 => by rw [← h1 off, h, h1, h2]
+  have hon : on.w.PI := Api.run_PI ops _ hops (Api.boot_PI shape _ ds rng hds)
+  have hoff : off.w.PI := Api.run_PI ops _ hops (Api.boot_PI shape _ ds rng hds)
+  refine ⟨key (·.root) (fun _ => rfl) (fun _ => rfl), key (·.w.trace) (fun _ => rfl) (fun _ => rfl),
+    key (·.w.requests) (fun _ => rfl) (fun _ => rfl), key (·.w.targets) (fun _ => rfl) (fun _ => rfl),
+    key (·.w.previous) (fun _ => rfl) (fun _ => rfl), key (·.structActive) (fun _ => rfl) (fun _ => rfl),
+    key (·.activity) (fun _ => rfl) (fun _ => rfl), key (·.w.ds) (fun _ => rfl) (fun _ => rfl),
+    key (·.w.rng) (fun _ => rfl) (fun _ => rfl), key (·.w.plans) (fun _ => rfl) (fun _ => rfl),
+    key (·.w.headStatus) (fun _ => rfl) (fun _ => rfl), key (·.w.subStatus) (fun _ => rfl) (fun _ => rfl),
+    hon.pe, hon.su, hon.fa, hoff.pe, hoff.su, hoff.fa, fun he => ?_⟩
+  have := plans_unused_equiv_plans_off shape cfg ds rng ops hops hds he
+  exact (congrArg (fun m : Mach U => m.w.err) this).trans he
+
+-- the hypotheses are satisfiable: the demonstration machine (composite root, a callback that requests a
+-- transition during the first `update()`), its program, both builds; no contract violation is met
+example : (∀ o ∈ Demo.prog, o.plansFree = true) ∧ (∀ d ∈ Demo.ds, Decision.plansFree d = true) ∧
+    (Api.run (Api.boot Demo.shape { Demo.cfg with plans := true } Demo.ds ([] : List Demo.DU)) Demo.prog).w.err = none ∧
+    (Api.run (Api.boot Demo.shape { Demo.cfg with plans := true } Demo.ds ([] : List Demo.DU)) Demo.prog).root.isActive 1 = true := by
+  decide +kernel
+
+-- … hence the theorem applies to it
+example :
+    Api.run (Api.boot Demo.shape { Demo.cfg with plans := false } Demo.ds ([] : List Demo.DU)) Demo.prog =
+      Mach.plansOff (Api.run (Api.boot Demo.shape { Demo.cfg with plans := true } Demo.ds ([] : List Demo.DU)) Demo.prog) :=
+  plans_unused_equiv_plans_off _ _ _ _ _ (by decide) (by decide) (by decide +kernel)
+
+example : Demo.mach.w.PI ∧ Demo.mach.StatusClear :=
+  ⟨Api.boot_PI _ _ _ _ (by decide), Api.boot_statusClear _ _ _ _ (by decide)⟩
+
+/-- a manual instance with an orthogonal root: a leaf and a composite region side by side -/
+def errWitnessShape : Shape := .ortho true 0 (.cons (.leaf 0) (.cons (.compo true 0 .composite (.cons (.leaf 0) .nil)) .nil))
+
+/-- the root consumes the event in `preReact` and `react`; in `postReact` (bottom-up) the leaf does -/
+def errWitnessDs : List (Decision Demo.DU) := [[.consume], [.consume], [.consume]]
+
+/-- **The `err` flag of the model is not part of the equivalence** (closed witness): `react()` on the
+never-entered manual instance above.  Without plans the model records nothing; with plans `deepUpdatePlans`
+walks into the inactive composite region and the model records its own contract violation.  Everything else
+agrees (`plans_unused_equiv_plans_off_modulo_err`).  The real code asserts `isActive()` on entry of `react()`
+in both builds, so the input is outside the documented contract. -/
+theorem plans_unused_err_flag_differs :
+    (∀ o ∈ [Api.Op.react], o.plansFree = true) ∧ (∀ d ∈ errWitnessDs, Decision.plansFree d = true) ∧
+    (Api.run (Api.boot errWitnessShape { manual := true, plans := false } errWitnessDs ([] : List Demo.DU)) [.react]).w.err = none ∧
+    (Api.run (Api.boot errWitnessShape { manual := true, plans := true } errWitnessDs ([] : List Demo.DU)) [.react]).w.err =
+      some "updatePlans of an inactive region" := by
+  decide +kernel
+
 end Hfsm.Props.C15
 
 /-
@@ -147,6 +306,9 @@ Property theorems (for Props/INDEX.json):
   reconfiguration_commutes, reconfiguration_commutes_run, reconfiguration_commutes_boot,
   history_noninterference, history_noninterference_observables,
   substitution_limit_extra_fuel, substitution_limit_irrelevant_when_settled,
-  plans_unused_updatePlans_inert, plans_off_status_plumbing, task_capacity_only_at_full_edge
+  plans_unused_updatePlans_inert, plans_off_status_plumbing, task_capacity_only_at_full_edge,
+  plans_unused_equiv_plans_off, plans_unused_equiv_plans_off_run,
+  plans_unused_equiv_plans_off_modulo_err, plans_unused_equiv_plans_off_run_modulo_err,
+  plans_unused_equiv_plans_off_observables, plans_unused_err_flag_differs
   (logging: Hfsm.Props.C16.logging_noninterference*)
 -/
